@@ -15,7 +15,7 @@ ASSUMPTIONS = [
     "per-key three-way rule: a path takes the side that changed it, or the common value when both agree; otherwise conflict",
 ]
 MONITORS = "outcome of tree._merge / tree.merge compared with an independent per-key three-way merge"
-REQUIRED_COUNTERS = ["merge_calls", "accepted", "refused", "order_pairs_compared", "merge_via_store"]
+REQUIRED_COUNTERS = ["ancestor_unavailable_cases", "merge_calls", "accepted", "refused", "order_pairs_compared", "merge_via_store"]
 EXHAUSTIVE = {"quick": True, "thorough": True}
 
 POLICIES = [None, ["add"], ["add", "remove"], ["add", "change"], ["add", "remove", "change"]]
@@ -209,7 +209,7 @@ def run_shard(ctx):
         ctx.guard(case, one)
 
     # ---------------------------------------------------------------- merge() through a real store
-    nstore = 40 if ctx.tier == "quick" else 400
+    nstore = 400 if ctx.tier == "quick" else 4000
     for case, rng in ctx.cases(base + nrand + nstore, salt="store"):
         if case < base + nrand:
             continue
@@ -261,6 +261,20 @@ def run_shard(ctx):
             res.count("merge_via_store")
             res.nontrivial("store", sorted(anc.items()), sorted(ours.items()), sorted(theirs.items()), pol)
             exp, conflicts = three_way(anc, ours, theirs)
+            damaged = None
+            if with_anc and anc and rng.random() < 0.2:
+                # the ancestor's object is missing or truncated: any loud failure is fine, a silently different merge is not
+                damaged = rng.choice(["missing", "truncated"])
+                res.count("ancestor_unavailable_cases")
+                ap = odb.oid_to_path(a_hi.value)
+                import os as _os
+
+                _os.chmod(ap, 0o644)
+                if damaged == "missing":
+                    _os.unlink(ap)
+                else:
+                    with open(ap, "wb") as f:
+                        f.write(b"[{")
             try:
                 merged = merge(odb, a_hi, o_hi, t_hi, allowed=pol)
             except MergeError:
@@ -268,6 +282,10 @@ def run_shard(ctx):
                 ctx.drop(d)
                 return
             except Exception as e:  # noqa: BLE001
+                if damaged:
+                    res.count("ancestor_unavailable_refused")
+                    ctx.drop(d)
+                    return
                 shape = conflict_shape(anc, ours, theirs, conflicts)
                 res.violation(f"non-MergeError-exception/{type(e).__name__}/{shape}",
                               f"merge() raised {type(e).__name__} instead of MergeError (conflict shape {shape})", case=case,
@@ -279,7 +297,7 @@ def run_shard(ctx):
                 res.violation("accepted-conflict/store", "merge() succeeded despite a conflict", case=case,
                               detail={"anc": anc, "ours": ours, "theirs": theirs, "policy": pol})
             elif got != exp:
-                res.violation("wrong-result/store", "merge() result differs from the three-way merge", case=case,
+                res.violation("wrong-result/store" + ("/ancestor-unavailable" if damaged else ""), "merge() result differs from the three-way merge", case=case,
                               detail={"anc": anc, "ours": ours, "theirs": theirs, "policy": pol, "got": got, "expected": exp})
             if merged.hash_info.value != canonical_dir_oid(got) or merged.oid != merged.hash_info.value:
                 res.violation("merged-oid-not-canonical", "merged listing's identifier is not the canonical oid of its content",
